@@ -19,13 +19,15 @@ EXTENDS SecGateSem, TLC, Json, IOUtils
 
 Rec == ndJsonDeserialize(IOEnv.TRACE)
 
-VARIABLES l, run, rtps, viol
-tvars == <<l, run, rtps, viol>>
+\* xm: the matching configuration of the run (Reset line): pairs <<reader, writer id of topic>> that the rig
+\* matched in addition (writers of the second remote participant), see SecGateSem
+VARIABLES l, run, rtps, xm, viol
+tvars == <<l, run, rtps, xm, viol>>
 
-TraceInit == l = 1 /\ run = 0 /\ rtps = FALSE /\ viol = {}
+TraceInit == l = 1 /\ run = 0 /\ rtps = FALSE /\ xm = {} /\ viol = {}
 
 Msg(e) ==
-  LET m   == [rtps |-> rtps, first |-> e.first, src |-> e.src, wraps |-> e.wraps, els |-> e.els]
+  LET m   == [rtps |-> rtps, xm |-> xm, first |-> e.first, src |-> e.src, wraps |-> e.wraps, els |-> e.els]
       del == ToSet(e.delivered)
       hbSeen(p) == \E q \in del : q[2] = p[2] /\ q[1] >= p[1] /\ KnownId(m, q[1]) /\ ItemOf(m, q[1]).kind = "HB"
       flows(p)  == p \in del \/ (ItemOf(m, p[1]).kind = "HB" /\ hbSeen(p))
@@ -43,8 +45,8 @@ Msg(e) ==
 Step ==
   /\ l <= Len(Rec)
   /\ LET e == Rec[l] IN
-       CASE e.ev = "Reset" -> /\ run' = e.run /\ rtps' = e.rtps /\ viol' = {}
-         [] e.ev = "Msg"   -> /\ viol' = viol \cup Msg(e) /\ UNCHANGED <<run, rtps>>
+       CASE e.ev = "Reset" -> /\ run' = e.run /\ rtps' = e.rtps /\ xm' = ToSet(e.xm) /\ viol' = {}
+         [] e.ev = "Msg"   -> /\ viol' = viol \cup Msg(e) /\ UNCHANGED <<run, rtps, xm>>
   /\ l' = l + 1
   /\ (viol' # viol /\ viol' # {}) =>
         PrintT("VIOL line=" \o ToString(l) \o " run=" \o ToString(run') \o " clauses=" \o ToString(viol' \ viol))
